@@ -125,6 +125,15 @@ def sessionLine (s : St) (ts : List String) : Option (St × String) :=
     match parseCfg args with
     | some c => some ({ s with cfg := c }, "ok")
     | none => some (s, "bad-op")
+  | ["sv", k, "lockwait"] =>
+    -- saver k is let go on while another saver holds `saveLock`: it must block in `saveLock.Lock()` (no state change);
+    -- once the holder returns it dumps at once - the harness issues `sv k dump` right after the holder's last step
+    match k.toNat? with
+    | some kn =>
+      match s.savers.get? kn with
+      | some (.wantLock _) => if s.lockHeld then some (s, "waiting") else some (s, "bad:lock free")
+      | _ => some (s, "bad:saver not waiting for lock")
+    | none => some (s, "bad-op")
   | _ =>
     match parseOp ts with
     | some .getOffsets =>
